@@ -32,7 +32,8 @@ for p in props:
                 "design_ref": f"DESIGN.md section 5, {pid}",
             },
             "level_note": m.LEVEL_NOTE,
-            "technique": m.TECHNIQUE,
+            "technique": m.TECHNIQUE
+            + ("" if pid == "C19" else "; thorough tier: followed by a coverage-guided campaign (atheris / libFuzzer mutating the bytes that Hypothesis decodes into cases of the same strategy, same oracle)"),
         }
     )
 manifest = {
@@ -55,7 +56,7 @@ manifest = {
     ],
     "checks": checks,
     "not_applicable": na,
-    "notes": "All checks: ./run_check <ID> --tier quick|thorough, seed from VERIF_SEED, PYTHONHASHSEED pinned to 0 by the wrapper. Exit 2 = harness error (never a violation). Fix commits in /repo are listed in known_findings.json.",
+    "notes": "All checks: ./run_check <ID> --tier quick|thorough, seed from VERIF_SEED, PYTHONHASHSEED pinned to 0 by the wrapper. Exit 2 = harness error (never a violation). Fix commits in /repo are listed in known_findings.json. setup.sh installs hypothesis into /venv if missing and atheris under /verif/.deps (offline wheelhouse); without atheris the thorough tier skips its coverage-guided part with a NOTE.",
 }
 json.dump(manifest, open(os.path.join(ROOT, "MANIFEST.json"), "w"), indent=1)
 print("checks:", [c["property_id"] for c in checks], "not_applicable:", len(na))
